@@ -59,7 +59,10 @@ func syTok(b []byte) int64 {
 // (first occurrence order; 0 stays 0), which keeps every equality and makes the Coq term small.
 func syT(b []byte) string { return "#" + strconv.FormatInt(syTok(b), 10) }
 
-var syTokRe = regexp.MustCompile(`#\d+`)
+// syTM is the token of a unary REQUEST: content and method (the reply function depends on the method)
+func syTM(mi int, b []byte) string { return "#" + strconv.FormatInt(syTok(b)*8+int64(mi)+1, 10) + "m" }
+
+var syTokRe = regexp.MustCompile(`#\d+m?`)
 
 func syIntern(steps []syStep) {
 	tab := map[string]string{"#0": "0"}
@@ -91,6 +94,78 @@ func syMix(b []byte) []byte {
 	out := make([]byte, n)
 	for i := 0; i < n; i++ {
 		out[i] = b[n-1-i] ^ byte(0xa5+7*i)
+	}
+	return out
+}
+
+// syMixM is the reply of unary method number mi (distinguishable handlers: a call that runs another method's
+// handler gets a visibly different reply, except for the empty request)
+func syMixM(mi int, b []byte) []byte {
+	n := len(b)
+	out := make([]byte, n)
+	for i := 0; i < n; i++ {
+		out[i] = b[n-1-i] ^ byte(0xa5+7*i+31*mi)
+	}
+	return out
+}
+
+// Two services, each with three unary methods and two stream methods of each kind; every method has its own
+// handler closure (method number mi / si), so that a dispatch to the wrong handler is visible.
+type sySvc interface{ isSy() }
+
+func (r *syRig) isSy() {}
+
+const (
+	syNUnary  = 6  // U0..U2 of verif.SyA, U0..U2 of verif.SyB
+	syNStream = 12 // per service: C0 C1 (client-streaming), S0 S1 (server-streaming), B0 B1 (bidi)
+)
+
+var sySvcNames = []string{"verif.SyA", "verif.SyB"}
+
+func syUnaryIndex(path string) int {
+	for mi := 0; mi < syNUnary; mi++ {
+		if path == syUnaryPath(mi) {
+			return mi
+		}
+	}
+	return -1
+}
+func syUnaryPath(mi int) string { return fmt.Sprintf("/%s/U%d", sySvcNames[mi/3], mi%3) }
+func syStreamKind(si int) int   { return (si % 6) / 2 }
+func syStreamPath(si int) string {
+	return fmt.Sprintf("/%s/%c%d", sySvcNames[si/6], "CSB"[syStreamKind(si)], si%2)
+}
+func syStreamDesc(si int) *grpc.StreamDesc {
+	k := syStreamKind(si)
+	return &grpc.StreamDesc{StreamName: fmt.Sprintf("%c%d", "CSB"[k], si%2), ClientStreams: k != 1, ServerStreams: k != 0}
+}
+
+func syServiceDescs() []*grpc.ServiceDesc {
+	var out []*grpc.ServiceDesc
+	for a := 0; a < 2; a++ {
+		sd := &grpc.ServiceDesc{ServiceName: sySvcNames[a], HandlerType: (*sySvc)(nil)}
+		for m := 0; m < 3; m++ {
+			mi := a*3 + m
+			sd.Methods = append(sd.Methods, grpc.MethodDesc{MethodName: fmt.Sprintf("U%d", m),
+				Handler: func(srv any, ctx context.Context, dec func(any) error, _ grpc.UnaryServerInterceptor) (any, error) {
+					in := new(wrapperspb.BytesValue)
+					if err := dec(in); err != nil {
+						return nil, err
+					}
+					out, has, err := srv.(*syRig).unaryH(ctx, mi, in.Value)
+					if !has {
+						return nil, err
+					}
+					return &wrapperspb.BytesValue{Value: out}, err
+				}})
+		}
+		for x := 0; x < 6; x++ {
+			si := a*6 + x
+			d := syStreamDesc(si)
+			d.Handler = func(srv any, stream grpc.ServerStream) error { return srv.(*syRig).streamH(si, stream) }
+			sd.Streams = append(sd.Streams, *d)
+		}
+		out = append(out, sd)
 	}
 	return out
 }
@@ -162,6 +237,8 @@ func syWenv(e *Rpc) string {
 		var m wrapperspb.BytesValue
 		if err := proto.Unmarshal(e.GetBody().GetData(), &m); err != nil {
 			body = "(Some (-1))"
+		} else if mi := syUnaryIndex(e.GetHeader().GetMethod()); mi >= 0 && e.GetHeader().GetSource() == "c1" {
+			body = fmt.Sprintf("(Some %s)", syTM(mi, m.Value)) // a unary request: content and method
 		} else {
 			body = fmt.Sprintf("(Some %s)", syT(m.Value))
 		}
@@ -182,6 +259,7 @@ type syCop struct {
 	Kind int    // open: 0 CStream, 1 SStream, 2 Bidi
 	Pay  []byte // invoke / send
 	Park bool   // recv / send: park at the yield point after the done-check
+	M    int    // invoke: unary method number (0..5); open: variant (service / method of the kind)
 }
 
 func (c syCop) String() string {
@@ -235,7 +313,9 @@ type syThread struct {
 	step  chan struct{}
 	yield chan struct{}
 	atY   atomic.Bool
-	calls int // unary calls / ops issued (for tags)
+	calls int                    // unary calls / ops issued (for tags)
+	in    *wrapperspb.BytesValue // one request object and one reply object reused by all the calls of the thread
+	out   *wrapperspb.BytesValue
 }
 
 type syGate struct {
@@ -260,12 +340,18 @@ func (a syAct) coq() string {
 		return "SC2S"
 	case 'S':
 		return "SS2C"
+	case 'X':
+		return "SFailRead"
+	case 'B':
+		return "SBlockWrites true"
+	case 'b':
+		return "SBlockWrites false"
 	}
 	return "SFree"
 }
 
 func (a syAct) String() string {
-	if a.K == 'C' || a.K == 'S' {
+	if a.K == 'C' || a.K == 'S' || a.K == 'X' || a.K == 'B' || a.K == 'b' {
 		return string(a.K)
 	}
 	return fmt.Sprintf("%c%d", a.K, a.N)
@@ -318,8 +404,10 @@ func newSyRig(topo int, byRef, lock bool) *syRig {
 	r := &syRig{hist: &syHist{}, lock: lock, topo: topo, ugates: map[int64]*syGate{}, sgates: map[int64]*syGate{},
 		hprogs: map[int64]syHProg{}, streams: map[int]grpc.ClientStream{}, armed: map[string]*syThread{}}
 	r.ctx, r.cancel = context.WithCancel(context.Background())
-	impl := &echoImpl{unary: r.unaryH, stream: r.streamH}
-	srv := newEchoServer("srv", impl)
+	srv := goat.NewServer("srv")
+	for _, sd := range syServiceDescs() {
+		srv.RegisterService(sd, r)
+	}
 	l := NewLink(byRef)
 	l.Auto = !lock
 	r.link = l
@@ -329,7 +417,7 @@ func newSyRig(topo int, byRef, lock bool) *syRig {
 	l.C.OnWrite = func(e *Rpc) {
 		r.hist.add("WC2S " + syWenv(e))
 		r.c2sTotal.Add(1)
-		if strings.HasSuffix(e.GetHeader().GetMethod(), "Unary") || (e.GetBody() == nil && e.GetTrailer() == nil) {
+		if strings.Contains(e.GetHeader().GetMethod(), "/U") || (e.GetBody() == nil && e.GetTrailer() == nil) {
 			r.c2sNoQueue.Add(1) // unary requests and stream opens do not go through a stream's queue at the server
 		}
 		cw(e)
@@ -430,12 +518,12 @@ func (r *syRig) gate(m map[int64]*syGate, tag int64) {
 
 // ---- handlers
 
-func (r *syRig) unaryH(ctx context.Context, req []byte) ([]byte, bool, error) {
+func (r *syRig) unaryH(ctx context.Context, mi int, req []byte) ([]byte, bool, error) {
 	c := syTag(ctx, "sy-c")
-	r.hist.add(fmt.Sprintf("HUnS %s %s", coqZ(c), syT(req)))
+	r.hist.add(fmt.Sprintf("HUnS %s %s", coqZ(c), syTM(mi, req)))
 	r.gate(r.ugates, c)
-	rep := syMix(req)
-	r.hist.add(fmt.Sprintf("HUnR %s %s %s", coqZ(c), syT(req), syT(rep)))
+	rep := syMixM(mi, req)
+	r.hist.add(fmt.Sprintf("HUnR %s %s %s", coqZ(c), syTM(mi, req), syT(rep)))
 	return rep, true, nil
 }
 
@@ -444,7 +532,7 @@ func syFresh(seed int64, k int64, i int) []byte {
 	return syBytes(rng, sySizes[rng.Intn(len(sySizes))])
 }
 
-func (r *syRig) streamH(kind string, s grpc.ServerStream) error {
+func (r *syRig) streamH(si int, s grpc.ServerStream) error {
 	k := syTag(s.Context(), "sy-k")
 	if k < 0 {
 		k = 999999 // a stream nobody opened
@@ -458,6 +546,11 @@ func (r *syRig) streamH(kind string, s grpc.ServerStream) error {
 	if !ok {
 		r.hist.add(fmt.Sprintf("HRet %d %d", k, 2))
 		return status.Error(codes.Unknown, "no program for this stream")
+	}
+	if want := syTag(s.Context(), "sy-m"); want != int64(si) {
+		// the handler of another method was run for this stream
+		r.hist.add(fmt.Sprintf("HRet %d %d", k, 98))
+		return status.Error(codes.Code(98), "wrong handler")
 	}
 	recv := func() ([]byte, error) {
 		r.gate(r.sgates, k)
@@ -521,19 +614,32 @@ func (r *syRig) streamH(kind string, s grpc.ServerStream) error {
 
 // ---- caller-side operations (used by lock-step threads and by free-running goroutines)
 
-func (r *syRig) invoke(ctx context.Context, c int64, req []byte) error {
+// invoke issues unary call c on method mi; the request and reply objects are the caller's (reused across its
+// calls: Invoke must overwrite the reply object completely, also with an empty reply)
+func (r *syRig) invoke(ctx context.Context, c int64, mi int, req []byte, in, out *wrapperspb.BytesValue) error {
 	ctx = metadata.AppendToOutgoingContext(ctx, "sy-c", strconv.FormatInt(c, 10))
-	var out wrapperspb.BytesValue
-	r.hist.add(fmt.Sprintf("CInvS %d %s %s", c, syT(req), syT(syMix(req))))
-	err := r.cc.Invoke(ctx, "/verif.Echo/Unary", bv(req), &out)
+	in.Value = req
+	r.hist.add(fmt.Sprintf("CInvS %d %s %s", c, syTM(mi, req), syT(syMixM(mi, req))))
+	err := r.cc.Invoke(ctx, syUnaryPath(mi), in, out)
 	r.hist.add(fmt.Sprintf("CInvR %d %s", c, syRes(err, out.Value)))
 	return err
 }
 
+// a reply object as a caller may hand it in: already holding something
+func syUsedReply() *wrapperspb.BytesValue {
+	return &wrapperspb.BytesValue{Value: []byte("stale reply of an earlier call")}
+}
+
 func (r *syRig) open(ctx context.Context, k int64, kind int) (grpc.ClientStream, error) {
-	ctx = metadata.AppendToOutgoingContext(ctx, "sy-k", strconv.FormatInt(k, 10))
+	return r.openM(ctx, k, kind, int(k))
+}
+
+// openM opens stream k of the given kind on variant v (service and method of that kind)
+func (r *syRig) openM(ctx context.Context, k int64, kind, v int) (grpc.ClientStream, error) {
+	si := (v%4/2)*6 + kind*2 + v%2
+	ctx = metadata.AppendToOutgoingContext(ctx, "sy-k", strconv.FormatInt(k, 10), "sy-m", strconv.Itoa(si))
 	r.hist.add(fmt.Sprintf("COpenS %d %d", k, kind))
-	cs, err := r.cc.NewStream(ctx, syDescs[kind], "/verif.Echo/"+syKinds[kind])
+	cs, err := r.cc.NewStream(ctx, syStreamDesc(si), syStreamPath(si))
 	r.hist.add(fmt.Sprintf("COpenR %d %d", k, syErrCls(err)))
 	return cs, err
 }
@@ -590,10 +696,13 @@ func (r *syRig) exec(th *syThread) {
 		r.nextC++
 		r.mu.Unlock()
 		th.pc++
-		r.invoke(r.ctx, c, op.Pay)
+		if th.out == nil {
+			th.in, th.out = &wrapperspb.BytesValue{}, syUsedReply()
+		}
+		r.invoke(r.ctx, c, op.M%syNUnary, op.Pay, th.in, th.out)
 	case "open":
 		th.pc++
-		cs, err := r.open(r.ctx, int64(op.Slot), op.Kind)
+		cs, err := r.openM(r.ctx, int64(op.Slot), op.Kind, op.M)
 		if err == nil {
 			r.mu.Lock()
 			r.streams[op.Slot] = cs
@@ -711,7 +820,7 @@ func (r *syRig) do(a syAct) {
 		r.link.mu.Lock()
 		if len(r.link.c2s) > 0 {
 			e := r.link.c2s[0]
-			if !(strings.HasSuffix(e.GetHeader().GetMethod(), "Unary") || (e.GetBody() == nil && e.GetTrailer() == nil)) {
+			if !(strings.Contains(e.GetHeader().GetMethod(), "/U") || (e.GetBody() == nil && e.GetTrailer() == nil)) {
 				r.c2sDelivQ.Add(1)
 			}
 		}
@@ -719,6 +828,12 @@ func (r *syRig) do(a syAct) {
 		r.link.StepC2S()
 	case 'S':
 		r.link.StepS2C()
+	case 'X': // the client's transport fails (after what it has queued)
+		r.link.C.FailRead(errInjected)
+	case 'B': // the client's transport stops accepting writes (back-pressure)
+		r.link.C.BlockWrites()
+	case 'b':
+		r.link.C.UnblockWrites()
 	}
 }
 
@@ -809,8 +924,12 @@ func (r *syRig) runSchedule(choose func(step int, en []syAct) int, maxSteps int)
 			break
 		}
 		i := choose(n, en)
-		if i < 0 {
+		if i == -1 {
 			break
+		}
+		if i < -1 { // an environment action that is always enabled: -2 read failure, -3 / -4 block / unblock writes
+			en = []syAct{{map[int]byte{-2: 'X', -3: 'B', -4: 'b'}[i], 0}}
+			i = 0
 		}
 		m := r.hist.mark()
 		// the events of a step are everything recorded until the next action starts (in the rare case that the
